@@ -119,3 +119,164 @@ int main() {
 }
 ''' % {"ls": ls, "rs": rs, "holes": hole_specs, "nl": nl, "nr": nr,
        "lnew": ", ".join("new L<%d>" % i for i in range(nl)), "rnew": ", ".join("new R<%d>" % i for i in range(nr))}
+
+
+# ------------------------------------------------------------------------------------------------
+# C11 (and the smart-pointer glue of C09): argument passing through thunks
+
+SHAPES = {
+    "single": ("struct Derived : Base { int d = 2; };", "Base, Derived"),
+    "second": ("struct Pad { virtual ~Pad() {} long pad[3] = {1, 2, 3}; };\nstruct Derived : Pad, Base { int d = 2; };", "Base, Derived"),
+    "virtual": ("struct Derived : virtual Base { int d = 2; };", "Base, Derived"),
+    "deep": ("struct Pad { virtual ~Pad() {} long pad[3] = {1, 2, 3}; };\nstruct Mid : Pad, Base { int m = 3; };\nstruct Derived : Mid { int d = 2; };", "Base, Mid, Derived"),
+    "vdeep": ("struct Pad { virtual ~Pad() {} long pad[3] = {1, 2, 3}; };\nstruct Mid : virtual Base { int m = 3; };\nstruct Derived : Pad, Mid { int d = 2; };", "Base, Mid, Derived"),
+}
+
+
+def prog_args(shape, policy="default"):
+    decl, classes = SHAPES[shape]
+    pol = "" if policy == "default" else ", " + policy
+    polt = "YOMM2_DEFAULT_POLICY" if policy == "default" else policy
+    return r'''
+#include <yorel/yomm2/core.hpp>
+#include <yorel/yomm2/symbols.hpp>
+#include <cstdio>
+#include <memory>
+using namespace yorel::yomm2;
+using Pol = %(polt)s;
+struct Tracked {
+    static int copies, moves;
+    int v = 7;
+    Tracked() {}
+    Tracked(const Tracked& o) : v(o.v) { ++copies; }
+    Tracked(Tracked&& o) : v(o.v) { ++moves; o.v = -1; }
+};
+int Tracked::copies, Tracked::moves;
+struct MoveOnly {
+    static int moves;
+    int v = 9;
+    MoveOnly() {}
+    MoveOnly(MoveOnly&& o) : v(o.v) { ++moves; o.v = -1; }
+    MoveOnly(const MoveOnly&) = delete;
+};
+int MoveOnly::moves;
+struct Base { virtual ~Base() {} int b = 1; };
+%(decl)s
+use_classes<%(classes)s%(pol)s> YOMM2_GENSYM;
+struct Seen { const void* as_derived; const void* most; int d; bool owner_same; long use; int extra; } seen;
+static void see(const Derived& d, int extra = 0) { seen.as_derived = &d; seen.most = dynamic_cast<const void*>(&d); seen.d = d.d; seen.extra = extra; }
+template<class K> struct key;
+#define METHOD(NAME, ...) using NAME = method<key<struct NAME##_k>, __VA_ARGS__%(pol)s>
+// virtual parameter kinds, at position 0 and at position 1 (after an int)
+METHOD(m_ref, int(virtual_<Base&>));
+METHOD(m_ref1, int(int, virtual_<Base&>));
+METHOD(m_cref, int(virtual_<const Base&>));
+METHOD(m_rref, int(virtual_<Base&&>));
+METHOD(m_ptr, int(virtual_<Base*>, int));
+METHOD(m_shared, int(virtual_<std::shared_ptr<Base>>));
+METHOD(m_cshared, int(double, virtual_<const std::shared_ptr<Base>&>));
+METHOD(m_vptr, int(virtual_ptr<Base, Pol>));
+METHOD(m_vptr1, int(int, virtual_ptr<Base, Pol>, int));
+METHOD(m_vsptr, int(virtual_shared_ptr<Base, Pol>));
+METHOD(m_cvsptr, int(const virtual_shared_ptr<Base, Pol>&));
+METHOD(m_two, int(virtual_<Base&>, virtual_<Base*>));
+// non-virtual categories
+METHOD(n_value, int(virtual_<Base&>, Tracked));
+METHOD(n_lref, int(virtual_<Base&>, Tracked&));
+METHOD(n_rref, int(Tracked&&, virtual_<Base&>));
+METHOD(n_moveonly, int(virtual_<Base&>, MoveOnly));
+METHOD(n_ret, Tracked(virtual_<Base&>));
+METHOD(n_retref, Tracked&(virtual_<Base&>, Tracked&));
+static std::shared_ptr<Base> g_owner;
+static int d_ref(Derived& d) { see(d); return 1; }
+static int d_ref1(int x, Derived& d) { see(d, x); return 1; }
+static int d_cref(const Derived& d) { see(d); return 1; }
+static int d_rref(Derived&& d) { see(d); return 1; }
+static int d_ptr(Derived* d, int x) { see(*d, x); return 1; }
+static int d_shared(std::shared_ptr<Derived> d) { see(*d); seen.owner_same = !d.owner_before(g_owner) && !g_owner.owner_before(d); seen.use = d.use_count(); return 1; }
+static int d_cshared(double x, const std::shared_ptr<Derived>& d) { see(*d, (int)x); seen.owner_same = !d.owner_before(g_owner) && !g_owner.owner_before(d); seen.use = d.use_count(); return 1; }
+static int d_vptr(virtual_ptr<Derived, Pol> d) { see(*d); return 1; }
+static int d_vptr1(int x, virtual_ptr<Derived, Pol> d, int y) { see(*d, x * 10 + y); return 1; }
+static int d_vsptr(virtual_shared_ptr<Derived, Pol> d) { see(*d); seen.owner_same = !d.get().owner_before(g_owner) && !g_owner.owner_before(d.get()); seen.use = d.get().use_count(); return 1; }
+static int d_cvsptr(const virtual_shared_ptr<Derived, Pol>& d) { see(*d); seen.owner_same = !d.get().owner_before(g_owner) && !g_owner.owner_before(d.get()); return 1; }
+static int d_two(Derived& a, Derived* b) { see(a); seen.extra = (&a == b) ? 1 : 0; return 1; }
+static int dn_value(Derived& d, Tracked t) { see(d, t.v); return 1; }
+static int dn_lref(Derived& d, Tracked& t) { see(d, t.v); t.v = 8; seen.most = &t; return 1; }
+static int dn_rref(Tracked&& t, Derived& d) { see(d, t.v); seen.most = &t; return 1; }
+static int dn_moveonly(Derived& d, MoveOnly t) { see(d, t.v); return 1; }
+static Tracked dn_ret(Derived& d) { see(d); return Tracked(); }
+static Tracked& dn_retref(Derived& d, Tracked& t) { see(d); return t; }
+#define ADD(M, F) static typename M::template add_function<F> YOMM2_GENSYM
+ADD(m_ref, d_ref); ADD(m_ref1, d_ref1); ADD(m_cref, d_cref); ADD(m_rref, d_rref); ADD(m_ptr, d_ptr);
+ADD(m_shared, d_shared); ADD(m_cshared, d_cshared); ADD(m_vptr, d_vptr); ADD(m_vptr1, d_vptr1);
+ADD(m_vsptr, d_vsptr); ADD(m_cvsptr, d_cvsptr); ADD(m_two, d_two);
+ADD(n_value, dn_value); ADD(n_lref, dn_lref); ADD(n_rref, dn_rref); ADD(n_moveonly, dn_moveonly); ADD(n_ret, dn_ret); ADD(n_retref, dn_retref);
+static void report(const char* kind, const Derived& obj, int extra_expected) {
+    std::printf("arg kind=%%s same=%%d most=%%d value=%%d extra=%%d\n", kind, seen.as_derived == &obj,
+                seen.most == dynamic_cast<const void*>(&obj), seen.d == 2, seen.extra == extra_expected);
+}
+int main() {
+    update<Pol>();
+    std::printf("cast dynamic=%%d\n", (int)detail::requires_dynamic_cast<Base&, Derived&>);
+    Derived obj;
+    Base& b = obj;
+    seen = {}; m_ref::fn(b); report("ref", obj, 0);
+    seen = {}; m_ref1::fn(5, b); report("ref@1", obj, 5);
+    seen = {}; m_cref::fn(b); report("cref", obj, 0);
+    seen = {}; m_rref::fn(std::move(b)); report("rref", obj, 0);
+    seen = {}; m_ptr::fn(&b, 6); report("ptr", obj, 6);
+    seen = {}; m_two::fn(b, &b); report("two", obj, 1);
+    {
+        auto sd = std::make_shared<Derived>();
+        std::shared_ptr<Base> sb = sd;
+        g_owner = sb;
+        long before = sb.use_count();
+        seen = {}; m_shared::fn(sb); report("shared", *sd, 0);
+        std::printf("own kind=shared same_owner=%%d use_after=%%d\n", seen.owner_same, sb.use_count() == before);
+        seen = {}; m_cshared::fn(2.0, sb); report("cshared@1", *sd, 2);
+        std::printf("own kind=cshared same_owner=%%d use_after=%%d\n", seen.owner_same, sb.use_count() == before);
+        virtual_shared_ptr<Base, Pol> vsp(sb);
+        seen = {}; m_vsptr::fn(vsp); report("vsptr", *sd, 0);
+        std::printf("own kind=vsptr same_owner=%%d use_after=%%d\n", seen.owner_same, sb.use_count() == before + 1);
+        seen = {}; m_cvsptr::fn(vsp); report("cvsptr", *sd, 0);
+        std::printf("own kind=cvsptr same_owner=%%d\n", seen.owner_same);
+        // construction routes of virtual_shared_ptr (C09): all must dispatch like the reference
+        std::shared_ptr<Base> nonconst = sd;
+        const std::shared_ptr<Base> cst = sd;
+        seen = {}; m_vsptr::fn(virtual_shared_ptr<Base, Pol>(nonconst)); report("vsptr<-lvalue", *sd, 0);
+        seen = {}; m_vsptr::fn(virtual_shared_ptr<Base, Pol>(cst)); report("vsptr<-const", *sd, 0);
+        seen = {}; m_vsptr::fn(virtual_shared_ptr<Base, Pol>(std::shared_ptr<Base>(sd))); report("vsptr<-rvalue", *sd, 0);
+        virtual_shared_ptr<Derived, Pol> vd(sd);
+        seen = {}; m_vsptr::fn(virtual_shared_ptr<Base, Pol>(vd)); report("vsptr<-derived", *sd, 0);
+        auto mv = make_virtual_shared<Derived, Pol>();
+        seen = {}; m_vsptr::fn(mv); std::printf("arg kind=make_virtual_shared same=%%d get=%%d\n", seen.as_derived == mv.get().get(), &*mv == mv.get().get());
+        g_owner.reset();
+    }
+    {
+        virtual_ptr<Base, Pol> vp(b);
+        seen = {}; m_vptr::fn(vp); report("vptr", obj, 0);
+        seen = {}; m_vptr1::fn(3, vp, 4); report("vptr@1", obj, 34);
+        virtual_ptr<Base, Pol> copy(vp);
+        seen = {}; m_vptr::fn(copy); report("vptr-copy", obj, 0);
+        virtual_ptr<Derived, Pol> fin = virtual_ptr<Derived, Pol>::final(obj);
+        seen = {}; m_vptr::fn(fin); report("vptr-final->base", obj, 0);
+        virtual_ptr<Derived, Pol> exact(obj);
+        seen = {}; m_vptr::fn(exact); report("vptr-exact->base", obj, 0);
+        std::printf("get kind=vptr get=%%d deref=%%d arrow=%%d\n", vp.get() == &b, &*vp == &b, vp->b == 1);
+    }
+    {
+        Tracked t;
+        Tracked::copies = Tracked::moves = 0; seen = {}; n_value::fn(b, Tracked()); std::printf("nv cat=value-prvalue got=%%d copies=%%d moves_le1=%%d\n", seen.extra == 7, Tracked::copies, Tracked::moves <= 1);
+        Tracked::copies = Tracked::moves = 0; seen = {}; n_value::fn(b, std::move(t)); std::printf("nv cat=value-xvalue got=%%d copies=%%d moves_le1=%%d src_moved=%%d\n", seen.extra == 7, Tracked::copies, Tracked::moves <= 1, t.v == -1);
+        Tracked t2;
+        Tracked::copies = Tracked::moves = 0; seen = {}; n_value::fn(b, t2); std::printf("nv cat=value-lvalue got=%%d copies=%%d src_intact=%%d\n", seen.extra == 7, Tracked::copies, t2.v == 7);
+        Tracked::copies = Tracked::moves = 0; seen = {}; n_lref::fn(b, t2); std::printf("nv cat=lref same=%%d copies=%%d moves=%%d written=%%d\n", seen.most == &t2, Tracked::copies, Tracked::moves, t2.v == 8);
+        Tracked t3;
+        Tracked::copies = Tracked::moves = 0; seen = {}; n_rref::fn(std::move(t3), b); std::printf("nv cat=rref same=%%d copies=%%d moves=%%d intact=%%d\n", seen.most == &t3, Tracked::copies, Tracked::moves, t3.v == 7);
+        MoveOnly::moves = 0; seen = {}; n_moveonly::fn(b, MoveOnly()); std::printf("nv cat=moveonly got=%%d moves_le1=%%d\n", seen.extra == 9, MoveOnly::moves <= 1);
+        Tracked::copies = Tracked::moves = 0; Tracked r = n_ret::fn(b); std::printf("ret cat=value got=%%d copies=%%d moves=%%d\n", r.v == 7, Tracked::copies, Tracked::moves);
+        Tracked t4; Tracked& rr = n_retref::fn(b, t4); std::printf("ret cat=ref same=%%d\n", &rr == &t4);
+    }
+    return 0;
+}
+''' % {"decl": decl, "classes": classes, "pol": pol, "polt": polt}
